@@ -37,18 +37,39 @@ func zzStub_time_NewTimer(d time.Duration) *time.Timer {
 	} else {
 		ch <- time.Time{}
 	}
-	return &time.Timer{C: ch}
+	t := &time.Timer{C: ch}
+	if zzTimerChans == nil {
+		zzTimerChans = map[*time.Timer]chan time.Time{}
+	}
+	zzTimerChans[t] = ch
+	return t
 }
+
+// zzTimerChans: the send side of every harness-owned timer (for Reset).
+var zzTimerChans map[*time.Timer]chan time.Time
 
 func zzStub_time_Timer_Stop(t *time.Timer) bool { return true }
 
-// time.Sleep is a wait on the same harness-owned timer.
-func zzStub_time_Sleep(d time.Duration) { <-zzStub_time_After(d) }
-
+// Reset re-arms the timer: the new duration is logged and, unless timers are
+// held back by the harness, the timer fires again at once.
 func zzStub_time_Timer_Reset(t *time.Timer, d time.Duration) bool {
 	zzAfterLog = append(zzAfterLog, d)
+	if ch := zzTimerChans[t]; ch != nil {
+		if zzAfterBlock {
+			// held back: the harness releases it like a fresh timer
+			zzAfterChans = append(zzAfterChans, ch)
+		} else {
+			select {
+			case ch <- time.Time{}:
+			default:
+			}
+		}
+	}
 	return true
 }
+
+// time.Sleep is a wait on the same harness-owned timer.
+func zzStub_time_Sleep(d time.Duration) { <-zzStub_time_After(d) }
 
 // zzCfg: an advertising interface configuration with symbolic header fields
 // and two static plugins.
